@@ -610,7 +610,7 @@ def part_c(ctx, cov, dist, rng, repo, only=None):
         margs.append("reexpand")
         ctx.log("hostlist_register_rcmd re-expands the names (F09-2BR repaired): model runs as `reexpand`")
     dist["reg_variant"] = " ".join(margs)
-    n = 2000 if ctx.quick() else 20000
+    n = 1600 if ctx.quick() else 20000
     recs = []
     pinned = pinned_reg_cases(transports) if only is None else []
     dist["reg_pinned"] = len(pinned)
